@@ -742,7 +742,24 @@ func TestLOESS(t *testing.T) {
 		qmin := d + 3
 		q := rapid.IntRange(qmin, n).Draw(rt, "q")
 		c.Span = (float64(q) - 0.5) / float64(n) // ceil(span*n) == q
-		switch rapid.IntRange(0, 3).Draw(rt, "spanKind") {
+		switch rapid.IntRange(0, 4).Draw(rt, "spanKind") {
+		case 4:
+			// span a hair above k/n (by an ulp .. 1e-9): ceil(span*n) is k+1, one more point than
+			// at k/n itself; and a hair below (k points)
+			k := q - 1
+			base := float64(k) / float64(n)
+			up := rapid.Bool().Draw(rt, "spanAbove")
+			for _, cand := range []float64{base * (1 + gen.LogUniform(rt, 1e-15, 1e-9, "spanOff")), math.Nextafter(base, 2)} {
+				if !up {
+					cand = 2*base - cand
+				}
+				if qq := int(math.Ceil(cand * float64(n))); qq >= qmin && qq <= n && cand > 0 {
+					c.Span = cand
+					if rapid.Bool().Draw(rt, "spanUlp") {
+						break
+					}
+				}
+			}
 		case 1:
 			// span*n exactly (or within rounding of) an integer: ceil must not add a point
 			if q-1 >= qmin {
